@@ -1,0 +1,15 @@
+//go:build verif
+
+package pubsub
+
+import "sync/atomic"
+
+// verifSchedHook, when set by the verification harness, is called at named
+// schedule points so that specific interleavings can be forced deterministically.
+var verifSchedHook atomic.Pointer[func(string)]
+
+func verifSchedPoint(name string) {
+	if h := verifSchedHook.Load(); h != nil {
+		(*h)(name)
+	}
+}
